@@ -150,6 +150,17 @@ def bases():
     out.append(_scn('big_message', hs + [
         S.send(peer.enc_frame(2, b'B' * 70000)), S.eof(after=1000000)],
         _echo_app()))
+    # the application closes, the server echoes the Close and then keeps the
+    # TCP connection for seconds (it is the server's to close, RFC 6455
+    # 7.1.1): whatever the client does while it waits, at a short poll
+    # interval
+    out.append(_scn('app_closes_server_lingers',
+                    hs + [S.send(fr), {'op': 'await_close',
+                                       'timeout': 9000000},
+                          S.send(close), S.eof(after=7000000)],
+                    [{'when': {'name': 'text', 'nth': 1}, 'do': [
+                        {'op': 'close', 'code': 1000, 'reason': 'done'}]}],
+                    connect={'poll': 0.3, 'ping_rate': 0}))
     return out
 
 
